@@ -127,6 +127,19 @@ CHECKS = {
              'an Error: line without a traceback.',
         note='The harness applies the faults, so it knows the damage. Metadata-only scanning may deliver a damaged message '
              'with its own bytes (damage invisible in that mode; C17). Prefix failures may be any exception type.'),
+    'C14': dict(
+        level='model_checking', design='DESIGN.md §4 C14',
+        technique='exhaustive enumeration: every Table B/D entry of every bundled table version; ALL FM-94-well-formed '
+                  'descriptor lists up to length 6 (thorough 8) over a 9-symbol alphabet with replication nesting <= 4 '
+                  'plus the X sweep 1..63; an undefined element/sequence at every reached position of every list up to '
+                  'length 4 (5); the full product of table-selection parameters',
+        text='For every enumerated list the tree built by the real code must equal the FM-94 ownership computed by index '
+             'arithmetic and flatten back to the list; every bundled sequence must expand to the flat list a direct '
+             'expansion of the JSON file gives with every element keeping its Table B row; every substituted undefined '
+             'descriptor must make decoding raise UnknownDescriptor; every selection tuple must resolve to the '
+             'documented fall-back key.',
+        note='Trusted: mc.ref.template, mc.ref.tables. Ill-formed lists (replication past its scope) are outside FM-94. '
+             'Beyond the bound: lists longer than 8 descriptors over a richer alphabet.'),
     'C05': dict(
         level='model_checking', design='DESIGN.md §4 C05',
         technique='exhaustive enumeration of ALL columns over the full raw domain (n<=3,w<=3; thorough n<=4,w<=4) per '
